@@ -6,6 +6,7 @@ import (
 	"os"
 	"os/exec"
 	"path/filepath"
+	"sort"
 	"strings"
 	"sync/atomic"
 
@@ -359,6 +360,46 @@ func c07Histories(thorough bool) [][]L {
 
 type c07Artefact struct {
 	Spec crashSpec `json:"spec"`
+	// WALRetire: the deterministic reproduction of the crash inside badger's memtable-WAL deletion
+	WALRetire bool `json:"wal_retire,omitempty"`
+}
+
+// c07Class classifies a violation for known-findings matching.
+func c07Class(what string) string {
+	if strings.Contains(what, "Create a new file") {
+		// badger cannot reopen a directory that holds a zero-length memtable WAL file
+		return " badger-empty-wal-after-interrupted-delete"
+	}
+	return ""
+}
+
+// c07WALRetire reproduces deterministically what a process death inside badger's retirement of
+// a flushed memtable's write-ahead log leaves behind (ristretto's MmapFile.Delete truncates the
+// file to zero length and only then removes it): a short history is written by a child that
+// exits abruptly, the parent truncates the oldest *.mem file to zero length and reopens.
+func c07WALRetire(backend, base string) string {
+	dir := filepath.Join(base, "walretire-"+backend)
+	_ = os.RemoveAll(dir)
+	_ = os.MkdirAll(dir, 0o755)
+	defer os.RemoveAll(dir)
+	sp := crashSpec{Backend: backend, Dir: filepath.Join(dir, "db"), History: []L{{Op: "commit", V: 1, Batch: "add"}, {Op: "finalize", V: 1}, {Op: "commit", V: 2, Batch: "add"}}, Pos: 2, K: 1}
+	if ex, _, out := runChild(sp, dir); ex != 77 {
+		return fmt.Sprintf("harness: child did not die as requested (exit %d): %s", ex, out)
+	}
+	mems, _ := filepath.Glob(filepath.Join(sp.Dir, "*.mem"))
+	if len(mems) == 0 {
+		return "harness: no memtable WAL file found in " + sp.Dir
+	}
+	sort.Strings(mems)
+	if err := os.Truncate(mems[0], 0); err != nil {
+		return "harness: " + err.Error()
+	}
+	e, err := openEnv(backend, sp.Dir)
+	if err != nil {
+		return "process killed inside badger's deletion of a flushed memtable's write-ahead log (file already truncated to zero length, not yet removed): reopening the database failed: " + err.Error()
+	}
+	e.ndb.Close()
+	return ""
 }
 
 func c07Case(sp crashSpec, base string, id int) (exit int, what string) {
@@ -432,7 +473,9 @@ func runC07(r *ev.Run) {
 		base, _ := os.MkdirTemp(shmBase(), "verif-c07-")
 		defer os.RemoveAll(base)
 		var what string
-		if a.Spec.Crash2 > 0 {
+		if a.WALRetire {
+			what = c07WALRetire(a.Spec.Backend, base)
+		} else if a.Spec.Crash2 > 0 {
 			_, what = c07Case2(a.Spec, base, 0)
 		} else {
 			_, what = c07Case(a.Spec, base, 0)
@@ -513,7 +556,7 @@ func runC07(r *ev.Run) {
 				r.HarnessError("%s [%s pos %d k %d]", what, historyString(sp.History), sp.Pos, sp.K)
 				return
 			}
-			r.Violate(ev.Violation{Engine: "dbmc", Key: fmt.Sprintf("c07 %s [%s] crash in %s after durable write %d", sp.Backend, historyString(sp.History), sp.History[sp.Pos], sp.K),
+			r.Violate(ev.Violation{Engine: "dbmc", Key: fmt.Sprintf("c07 %s [%s] crash in %s after durable write %d", sp.Backend, historyString(sp.History), sp.History[sp.Pos], sp.K) + c07Class(what),
 				What:     fmt.Sprintf("%s, history [%s], process killed inside %s right after its durable write #%d: %s", sp.Backend, historyString(sp.History), sp.History[sp.Pos], sp.K, what),
 				Artefact: c07Artefact{Spec: sp}})
 		}
@@ -539,7 +582,7 @@ func runC07(r *ev.Run) {
 					r.HarnessError("%s [%s pos %d k %d k2 %d]", what, historyString(sp.History), sp.Pos, sp.K, k2)
 					return
 				}
-				r.Violate(ev.Violation{Engine: "dbmc", Key: fmt.Sprintf("c07 %s [%s] crash in %s after durable write %d, second crash after write %d of reopen+retry", sp.Backend, historyString(sp.History), sp.History[sp.Pos], sp.K, k2),
+				r.Violate(ev.Violation{Engine: "dbmc", Key: fmt.Sprintf("c07 %s [%s] crash in %s after durable write %d, second crash after write %d of reopen+retry", sp.Backend, historyString(sp.History), sp.History[sp.Pos], sp.K, k2) + c07Class(what),
 					What:     fmt.Sprintf("%s, history [%s], process killed inside %s right after its durable write #%d, then killed again right after durable write #%d of reopening and retrying: %s", sp.Backend, historyString(sp.History), sp.History[sp.Pos], sp.K, k2, what),
 					Artefact: c07Artefact{Spec: sp}})
 				return
@@ -552,6 +595,16 @@ func runC07(r *ev.Run) {
 			nontrivial.Add(1)
 		}
 	})
+	// 4. the crash inside badger's memtable-WAL retirement, reproduced deterministically
+	for _, be := range []string{"badger", "pathbadger"} {
+		what := c07WALRetire(be, base)
+		r.Add("evaluations", 1)
+		if strings.HasPrefix(what, "harness:") {
+			r.HarnessError("%s", what)
+		} else if what != "" {
+			r.Violate(ev.Violation{Engine: "dbmc", Key: "c07 " + be + " wal-retire" + c07Class(what), What: be + ": " + what, Artefact: c07Artefact{Spec: crashSpec{Backend: be}, WALRetire: true}})
+		}
+	}
 	r.Set("double_crash_cases", int(double.Load()))
 	r.Set("distinct_nontrivial", int(nontrivial.Load()))
 	r.Set("histories", len(hs))
